@@ -243,10 +243,16 @@ def run(prog, tier) -> Result:
     gm = prog.modules.get("utils.make_predef_units_doc")
     if gm is not None:
         from ..catalogue import DocScript
-        ds = DocScript(cat, gm)
-        gen = parse_doc_tables(ds.text())
+        try:
+            ds = DocScript(cat, gm)
+        except AnalysisError:
+            if res.violations:
+                ds = None       # the script is outside the evaluator's language: what was found so far stands
+            else:
+                raise
+        gen = parse_doc_tables(ds.text()) if ds is not None else {}
         gen_rows = 0
-        for tname, t in cat.types.items():
+        for tname, t in (cat.types.items() if ds is not None else ()):
             sec = gen.get(tname)
             if t.ref_unit is None or t.ref_unit.scale is None:
                 continue
@@ -275,7 +281,7 @@ def run(prog, tier) -> Result:
             res.ob("R20.4", f"generated section {tname}", "no other rows", not extra, f"rows for {extra}",
                    sig="generator prints rows for undeclared units", nontrivial=False)
         res.extra["generated_rows"] = gen_rows
-        if gen_rows < 80:
+        if ds is not None and gen_rows < 80:
             raise AnalysisError(f"the evaluated generator prints only {gen_rows} unit rows (≈100 expected)")
 
     res.require("R20.1", 113)
